@@ -1232,9 +1232,15 @@ pub fn exec_ix(
             out.detail = fail("executable account modified");
             return out;
         }
-        if p.owner != a.pre_owner {
-            // only the (pre) owner may assign, and only if data is zeroed or account is new
-            // (attribution to the executing program is not tracked across CPI levels)
+        // only the owning program may change an account's data or take lamports out of it. Attribution is per
+        // instruction, not per call level: the owner must be the executing program or a program it called.
+        if a.existed && (data_changed || p.lamports < a.pre_lamports || p.owner != a.pre_owner) {
+            let owner_ran = a.pre_owner == ix.program_id || out.cpis.iter().any(|c| c.program_id == a.pre_owner);
+            if !owner_ran {
+                out.code = ERR_RUNTIME;
+                out.detail = fail("account modified by a program that does not own it");
+                return out;
+            }
         }
         if p.lamports != a.pre_lamports || p.data.len() != a.pre_len {
             // rent state transition
